@@ -83,7 +83,7 @@ fn attr_type(k: usize) -> Ty {
     }
 }
 
-fn type_limits(ty: &Ty) -> (Option<LVal>, Option<LVal>) {
+pub fn type_limits(ty: &Ty) -> (Option<LVal>, Option<LVal>) {
     match ty {
         Ty::F32 { min, max } => (min.map(LVal::F32), max.map(LVal::F32)),
         Ty::F64 { min, max } => (min.map(LVal::F64), max.map(LVal::F64)),
